@@ -1,16 +1,19 @@
 """C19 — 1-Euclidean recognition (is_one_euclidean): exact verdict, returned embedding realises the votes.
 
-Shape (R), PARTIAL: no complete decision procedure is proved (it would need exact LP feasibility over Q).
-What the extracted model provides (Model/Euclid.v, theorems in Properties/C19.v):
+Shape (R), PARTIAL with respect to the implementation (its algorithm is not mirrored; bounded comparison).
+What the extracted model provides (Model/Euclid.v, Model/EuclidLP.v, theorems in Properties/C19.v):
   c19.check    verified witness checker for an embedding (eucl_check_correct): exact rationals, strict distances
   c19.refuted  verified necessary conditions (C19_refute_sound): a profile that is not single-peaked or not
                single-crossing has no embedding, so the implementation must answer False
+  c19.decide   verified EXACT reference decider (eucl_decide_correct: Fourier-Motzkin elimination over Q for every
+               axis on which the profile is single-peaked); doubly exponential, run for m <= 6 and n <= 6
 The correspondence therefore has three parts:
   (1) planted 1-Euclidean profiles: the generator's own embedding is accepted by c19.check, hence (planted_sound)
       the profile IS 1-Euclidean: the implementation must answer True and its map must pass c19.check;
-  (2) small profiles refuted by c19.refuted: the implementation must answer False;
-  (3) every other profile: only the witness of a True answer is checked (c19.check), and the verdict must not
-      depend on the storage order of the ballots (case op c19.orders).
+  (2) small profiles (m <= 6, n <= 6): the verdict must equal c19.decide; the witness of a True answer must pass
+      c19.check; c19.refuted is evaluated as well (refuted => decide says False: cross-check of the model);
+  (3) the verdict must not depend on the storage order of the ballots (case op c19.orders: every storage
+      order must get the verdict of c19.decide).
 The pinned implementation is known to be broken (open known findings KF-C19-a/b/c, see known_findings.json);
 the campaign is DETERMINISTIC (seeded by the constant CAMPAIGN_SEED, not by VERIF_SEED) because open findings
 are identified by the sha-256 of the failing inputs. Any failing input outside those lists is a violation."""
@@ -34,9 +37,10 @@ RULE = ("DETERMINISTIC campaign (constant seed %d; VERIF_SEED is ignored because
         "and its map {0..n-1: voters, c+n-1: alternative c}, converted exactly with fractions.Fraction, must pass "
         "c19.check. (2)/(3) small profiles (all sets of orders over 3 alternatives, all sets of <= 2 orders and "
         "sampled sets of 3..6 orders over 4 alternatives, swap-walk and random profiles over 4..6 alternatives, "
-        "n <= 6), each in several storage orders: if c19.refuted (not single-peaked or not single-crossing) the "
-        "implementation must answer False, otherwise only the witness of a True answer is checked; c19.orders "
-        "cases run 3..6 storage orders of one profile and demand one verdict. "
+        "n <= 6), each in several storage orders: the verdict must equal the exact reference c19.decide (in "
+        "particular False when c19.refuted: not single-peaked or not single-crossing) and the witness of a True "
+        "answer must pass c19.check; c19.orders cases run 3..6 storage orders of one profile and demand the "
+        "verdict of c19.decide for each. "
         "non-trivial = at least 3 alternatives and at least 2 distinct orders" % CAMPAIGN_SEED)
 EXHAUSTIVE = {
     "quick": "all 63 non-empty sets of strict orders over 3 alternatives (x sorted / reversed / shuffled storage); "
@@ -47,13 +51,16 @@ EXHAUSTIVE = {
 THEOREMS_FOR_OP = {
     "c19.planted": "eucl_check_correct, planted_sound (the planted profile is 1-Euclidean, so True with a map "
                    "accepted by eucl_check is the only correct answer)",
-    "c19.profile": "C19_refute_sound (refuted => no embedding => False), eucl_check_correct (witness of a True answer)",
-    "c19.orders": "the specification Euclidean is invariant under permutation of the ballots (Euclidean_perm)"}
+    "c19.profile": "eucl_decide_correct (exact reference verdict), C19_refute_sound (refuted => no embedding => "
+                   "False), eucl_check_correct (witness of a True answer)",
+    "c19.orders": "eucl_decide_correct; the specification Euclidean is invariant under permutation of the ballots "
+                  "(Euclidean_perm)"}
 TRUSTED = ["(R) not mirrored: is_one_euclidean (colouring from the first and last stored ballot, axis from colours, "
            "LP through python-mip/CBC, placement of the grey alternatives) and is_single_crossing, which it calls; "
            "only its observable result (bool, position map) is judged",
-           "no complete decision procedure for 1-Euclidean profiles is proved: False answers are only checked on "
-           "planted positives, True answers only through the witness and the proved necessary conditions",
+           "the exact reference c19.decide is only RUN for m <= 6 alternatives and n <= 6 distinct orders; beyond "
+           "that size False answers are only checked on planted positives and True answers only through the "
+           "witness (larger planted profiles of the thorough tier)",
            "float -> exact rational by fractions.Fraction(float) (every finite double is a dyadic rational)"]
 ASSUMPTIONS = ["profiles are duplicate-free lists of strict complete orders over the alternatives 1..m (labels must "
                "be 1..m: the keys of the returned map are computed from the labels), data type soc, at least one order",
@@ -64,6 +71,8 @@ CHUNK = 20
 
 REFUTE_MAX_M = 6     # c19.refuted enumerates m! axes and n! arrangements
 REFUTE_MAX_N = 6
+DECIDE_MAX_M = 6     # c19.decide: Fourier-Motzkin for every single-peaked axis
+DECIDE_MAX_N = 6
 
 K_EXC, K_WIT, K_VER = "exception", "witness", "verdict"
 
@@ -147,6 +156,38 @@ def swap_walk(rng, alts, n):
             break
         seq.append(list(cur))
     return seq
+
+
+# profiles over 6 alternatives that are single-peaked (axis 1..6) and single-crossing but NOT 1-Euclidean
+# (found with the exact reference; the model re-decides each of them on every run, nothing is trusted here)
+SPSC_NOT_EUCLIDEAN = [
+    [[3, 4, 2, 1, 5, 6], [3, 4, 2, 5, 6, 1], [4, 5, 3, 2, 6, 1]],
+    [[3, 2, 4, 5, 6, 1], [5, 4, 3, 2, 6, 1], [3, 2, 1, 4, 5, 6]],
+    [[4, 3, 5, 2, 1, 6], [2, 3, 4, 5, 1, 6], [4, 5, 3, 6, 2, 1]],
+    [[5, 4, 3, 2, 6, 1], [3, 2, 4, 1, 5, 6], [3, 4, 5, 2, 6, 1]],
+    [[4, 3, 5, 6, 2, 1], [4, 3, 2, 5, 1, 6], [3, 2, 4, 5, 1, 6]],
+    [[4, 5, 6, 3, 2, 1], [4, 3, 5, 2, 1, 6], [2, 3, 4, 1, 5, 6]],
+    [[2, 3, 4, 5, 1, 6], [3, 4, 5, 2, 1, 6], [4, 5, 6, 3, 2, 1]],
+    [[2, 3, 4, 1, 5, 6], [4, 5, 3, 2, 1, 6], [4, 5, 3, 6, 2, 1]],
+]
+
+
+def sp_votes(axis):
+    """all votes that are single-peaked on the axis"""
+    m = len(axis)
+    out = []
+
+    def rec(lo, hi, cur):
+        if len(cur) == m:
+            out.append([axis[i] for i in cur])
+            return
+        if lo > 0:
+            rec(lo - 1, hi, cur + [lo - 1])
+        if hi < m - 1:
+            rec(lo, hi + 1, cur + [hi + 1])
+    for p in range(m):
+        rec(p, p, [p])
+    return out
 
 
 def generate(tier, seed):
@@ -239,6 +280,28 @@ def generate(tier, seed):
         for j, order in enumerate(storage_orders(rng, len(prof), extra=1)):
             out.append(mk_profile(alts, [prof[i] for i in order], mults(rng, len(prof), i % 5 == 0),
                                   gen=tag, storage=j))
+
+    # ---- single-peaked AND single-crossing but not 1-Euclidean (m = 6): relabelled cores, every storage order
+    rng = random.Random(CAMPAIGN_SEED + 8)
+    alts6 = [1, 2, 3, 4, 5, 6]
+    for i, core in enumerate(SPSC_NOT_EUCLIDEAN if not quick else SPSC_NOT_EUCLIDEAN[:4]):
+        for rep in range(2 if quick else 4):
+            lab = alts6[:]
+            if rep:
+                rng.shuffle(lab)
+            prof = [[lab[a - 1] for a in r] for r in core]
+            for j, perm in enumerate(itertools.permutations(range(3))):
+                out.append(mk_profile(alts6, [prof[k] for k in perm], gen="spsc-core", storage=j))
+    # profiles sampled from the votes single-peaked on a random axis (m = 5, 6; about 1 % of the single-crossing
+    # ones are not 1-Euclidean), two storage orders
+    rng = random.Random(CAMPAIGN_SEED + 9)
+    for i in range(150 if quick else 1500):
+        m = rng.choice([5, 6, 6])
+        axis = list(range(1, m + 1))
+        rng.shuffle(axis)
+        prof = rng.sample(sp_votes(axis), rng.randint(3, 4))
+        out.append(mk_profile(sorted(axis), prof, gen="sp-sampled", storage=0))
+        out.append(mk_profile(sorted(axis), prof[::-1], gen="sp-sampled", storage=1))
 
     # ---- storage-order invariance of the verdict (one case = several storage orders of one profile)
     rng = random.Random(CAMPAIGN_SEED + 7)
@@ -348,27 +411,45 @@ def _is_true(r):
     return isinstance(r, list) and r[0] == 0 and r[1] == 1
 
 
-def oracle_requests(c, r):
+def _small(alts, profile):
+    return len(alts) <= DECIDE_MAX_M and len(profile) <= DECIDE_MAX_N
+
+
+def _layout(c, r):
+    """[(name, (op, payload))]: the requests sent to the model for this case, named for the judge"""
     pl = c["payload"]
     op = c["op"]
-    reqs = []
+    lay = []
     if op == "c19.planted":
-        reqs.append(("c19.check", [pl[0], pl[1], pl[3], pl[4]]))
+        lay.append(("gen", ("c19.check", [pl[0], pl[1], pl[3], pl[4]])))
+        if _small(pl[0], pl[1]):
+            lay.append(("decide", ("c19.decide", [pl[0], pl[1]])))
         if _is_true(r):
-            reqs.append(_check_req(pl[0], pl[1], r))
+            lay.append(("wit", _check_req(pl[0], pl[1], r)))
     elif op == "c19.profile":
         small = len(pl[0]) <= REFUTE_MAX_M and len(pl[1]) <= REFUTE_MAX_N
-        reqs.append(("c19.refuted", [pl[0], pl[1]]) if small else ("c19.refuted_fast", [pl[0], pl[1]]))
+        lay.append(("refuted", ("c19.refuted", [pl[0], pl[1]]) if small else ("c19.refuted_fast", [pl[0], pl[1]])))
+        if _small(pl[0], pl[1]):
+            lay.append(("decide", ("c19.decide", [pl[0], pl[1]])))
         if _is_true(r):
-            reqs.append(_check_req(pl[0], pl[1], r))
+            lay.append(("wit", _check_req(pl[0], pl[1], r)))
     else:  # c19.orders
         alts, prof, orders = pl
-        reqs.append(("c19.refuted", [alts, prof]))
+        lay.append(("refuted", ("c19.refuted", [alts, prof])))
+        lay.append(("decide", ("c19.decide", [alts, prof])))
         if isinstance(r, list):
-            for o, ri in zip(orders, r):
+            for k, (o, ri) in enumerate(zip(orders, r)):
                 if _is_true(ri):
-                    reqs.append(_check_req(alts, [prof[i] for i in o], ri))
-    return reqs
+                    lay.append(("wit%d" % k, _check_req(alts, [prof[i] for i in o], ri)))
+    return lay
+
+
+def oracle_requests(c, r):
+    return [req for _, req in _layout(c, r)]
+
+
+def _named(c, r, mres):
+    return {name: res for (name, _), res in zip(_layout(c, r), mres)}
 
 
 def _exc_text(r):
@@ -386,23 +467,41 @@ def _witness_reason(r):
             "along its ranking" % (miss_v, len(r[3]), r[4][0], r[4][1]))
 
 
+def _model_inconsistent(M):
+    """the theorems exclude these combinations; seeing one means the extracted model or the harness is broken"""
+    if M.get("refuted") == 1 and M.get("decide") == 1:
+        return "c19.refuted = 1 but c19.decide = 1 (contradicts eucl_refuted_sound / eucl_decide_correct)"
+    if M.get("decide") == 0 and any(v == 1 for k, v in M.items() if k.startswith("wit") or k == "gen"):
+        return "c19.decide = 0 but c19.check accepted an embedding (contradicts planted_sound / eucl_decide_correct)"
+    if M.get("refuted") == 1 and any(v == 1 for k, v in M.items() if k.startswith("wit") or k == "gen"):
+        return "c19.refuted = 1 but c19.check accepted an embedding (contradicts refuted_no_witness)"
+    return None
+
+
 def judge(c, r, mres):
     op = c["op"]
+    M = _named(c, r, mres)
+    bad = _model_inconsistent(M)
+    if bad:
+        return {"kind": "broken-correspondence", "reason": bad}
     if op == "c19.orders":
         if any(isinstance(ri, dict) for ri in r):
             return {"kind": K_EXC, "reason": "crash: %r" % ([ri for ri in r if isinstance(ri, dict)][:1],)}
         if any(ri[0] == 1 for ri in r):
             return {"kind": K_EXC, "reason": "is_one_euclidean raised " + _exc_text([ri for ri in r if ri[0] == 1][0])}
         verdicts = [ri[1] for ri in r]
-        if len(set(verdicts)) > 1:
-            return {"kind": K_VER, "reason": "the verdict of is_one_euclidean depends on the storage order of the "
-                    "ballots: %r for the storage orders %r of one profile (refuted by the necessary conditions: %s)"
-                    % (verdicts, c["payload"][2], bool(mres[0]))}
+        expected = M["decide"]
+        if any(v != expected for v in verdicts):
+            return {"kind": K_VER, "reason": "is_one_euclidean answers %r for the storage orders %r of one profile; the "
+                    "exact reference (eucl_decide_correct) says %s for every storage order (Euclidean_perm)%s%s"
+                    % (verdicts, c["payload"][2], bool(expected),
+                       "; the verdict depends on the storage order" if len(set(verdicts)) > 1 else "",
+                       "; the profile is refuted by the necessary conditions" if M["refuted"] == 1 else "")}
         return None
     if isinstance(r, dict):
         return {"kind": K_EXC, "reason": "crash: %r" % (r,)}
     if op == "c19.planted":
-        if mres[0] != 1:
+        if M["gen"] != 1:
             return None           # generator bug (ties): discarded, counted in stats as 'generator-bug'
         if r[0] == 1:
             return {"kind": K_EXC, "reason": "is_one_euclidean raised %s on a 1-Euclidean profile (planted_sound)"
@@ -410,20 +509,26 @@ def judge(c, r, mres):
         if r[1] == 0:
             return {"kind": K_VER, "reason": "is_one_euclidean answers False on a planted 1-Euclidean profile "
                     "(the generator's embedding is accepted by c19.check: planted_sound)"}
-        if mres[1] != 1:
+        if M["wit"] != 1:
             return {"kind": K_WIT, "reason": _witness_reason(r)}
         return None
     # c19.profile
-    refuted = mres[0] == 1
+    refuted = M["refuted"] == 1
+    expected = M.get("decide")            # None beyond the size the exact reference is run for
     if r[0] == 1:
         return {"kind": K_EXC, "reason": "is_one_euclidean raised " + _exc_text(r)}
     if r[1] == 1:
-        if refuted:
-            return {"kind": K_VER, "reason": "is_one_euclidean answers True on a profile that is not single-peaked or "
-                    "not single-crossing, hence not 1-Euclidean (C19_refute_sound); its map is %s by c19.check"
-                    % ("ACCEPTED (model inconsistency!)" if mres[1] == 1 else "rejected")}
-        if mres[1] != 1:
+        if refuted or expected == 0:
+            return {"kind": K_VER, "reason": "is_one_euclidean answers True on a profile that is not 1-Euclidean: %s; "
+                    "its map is rejected by c19.check"
+                    % ("it is not single-peaked or not single-crossing (C19_refute_sound)" if refuted else
+                       "it is single-peaked and single-crossing but the exact reference finds no embedding "
+                       "(eucl_decide_correct)")}
+        if M["wit"] != 1:
             return {"kind": K_WIT, "reason": _witness_reason(r)}
+    elif expected == 1:
+        return {"kind": K_VER, "reason": "is_one_euclidean answers False on a 1-Euclidean profile (exact reference: "
+                "eucl_decide_correct)"}
     return None
 
 
@@ -451,23 +556,32 @@ def nontrivial(c, r, m):
 def stats(c, r, mres):
     pl = c["payload"]
     m, n = len(pl[0]), len(pl[1])
+    M = _named(c, r, mres)
     lab = ["op " + c["op"], "gen " + str(c["tags"].get("gen")), "m=%s" % (m if m <= 6 else ">6"),
            "n=%s" % (n if n <= 6 else ">6")]
+    if "decide" in M:
+        lab.append("exact reference run: %s" % ("Euclidean" if M["decide"] == 1 else "not Euclidean"))
     try:
         f = judge(c, r, mres)
     except Exception:
         f = {"kind": "judge-error"}
     if c["op"] == "c19.orders":
-        lab.append("orders: " + ("refuted" if mres[0] == 1 else "not refuted"))
-        lab.append("orders: verdicts agree" if not f else "orders: FAIL " + classify(c, r, mres, f))
+        kind = "orders/" + ("refuted" if M["refuted"] == 1 else ("euclidean" if M["decide"] == 1 else "sp+sc-not-euclidean"))
+        lab.append(kind + (": ok" if not f else ": FAIL " + classify(c, r, mres, f)))
         return lab
     if c["op"] == "c19.planted":
-        if mres[0] != 1:
+        if M["gen"] != 1:
             lab.append("generator-bug (discarded)")
             return lab
         kind = "planted"
+    elif M["refuted"] == 1:
+        kind = "refuted"
+    elif M.get("decide") == 1:
+        kind = "euclidean"
+    elif M.get("decide") == 0:
+        kind = "sp+sc-not-euclidean"
     else:
-        kind = "refuted" if mres[0] == 1 else "free"
+        kind = "undecided(large)"
     if isinstance(r, dict):
         ans = "crash"
     elif r[0] == 1:
@@ -476,9 +590,9 @@ def stats(c, r, mres):
         ans = "True" if r[1] == 1 else "False"
     lab.append("%s: answer %s" % (kind, ans))
     if ans == "True":
-        lab.append("%s: witness %s" % (kind, "accepted" if mres[1] == 1 else "REJECTED"))
+        lab.append("%s: witness %s" % (kind, "accepted" if M.get("wit") == 1 else "REJECTED"))
     lab.append("%s: %s" % (kind, "ok" if not f else "FAIL " + classify(c, r, mres, f)))
-    if any(x > 1 for x in pl[2]) if c["op"] != "c19.orders" else False:
+    if any(x > 1 for x in pl[2]):
         lab.append("multiplicities > 1")
     return lab
 
